@@ -695,6 +695,10 @@ func runC15(seed int64, n int, tier string, outDir string) (*Report, error) {
 		}
 	}
 
+	// the wide grammar: owners with bytes >= 0x80 and every escape, Unicode case folding (c15u.go)
+	if err := c15Wide(g, rep, outDir, n); err != nil {
+		return nil, err
+	}
 	rep.CaseFiles = []string{pSplit, pStr, pLib, pEq, pItem, pAdd}
 	rep.CoqCases = cwSplit.total + cwStr.total + cwLib.total + cwEq.total + cwItem.total + cwAdd.total
 	return rep, nil
